@@ -321,3 +321,146 @@ theorem checksDiff_perm (l l' : List Check) (hp : l'.Perm l) (hn : (l.filterMap 
       simp [this]
 
 end Atlas.Diff
+
+namespace Atlas.Diff
+variable {α κ χ : Type} [DecidableEq κ]
+
+/-- **mem_keyedDiff**: what a keyed diff contains, for lists with distinct keys: exactly a `drop`
+for every element whose key disappeared, the change of every element whose key stayed and whose
+content changed, an `add` for every new key. -/
+theorem mem_keyedDiff (key : α → κ) (chg : α → α → Option χ) (drop add : α → χ) (frm to : List α)
+    (hto : (to.map key).Nodup) (x : χ) :
+    x ∈ keyedDiff key chg drop add frm to ↔
+      (∃ a ∈ frm, key a ∉ to.map key ∧ x = drop a) ∨
+      (∃ a ∈ frm, ∃ b ∈ to, key b = key a ∧ chg a b = some x) ∨
+      (∃ b ∈ to, key b ∉ frm.map key ∧ x = add b) := by
+  unfold keyedDiff
+  rw [List.mem_append, List.mem_filterMap, List.mem_filterMap]
+  constructor
+  · rintro (⟨a, ha, hx⟩ | ⟨b, hb, hx⟩)
+    · unfold fromStep at hx
+      cases hf : to.find? (fun b => key b = key a) with
+      | none =>
+        rw [hf] at hx
+        left
+        refine ⟨a, ha, ?_, by simpa using hx.symm⟩
+        intro hm
+        obtain ⟨b, hb, hk⟩ := List.mem_map.mp hm
+        rw [List.find?_eq_none] at hf
+        exact hf b hb (by simpa using hk)
+      | some b =>
+        rw [hf] at hx
+        right; left
+        exact ⟨a, ha, b, List.mem_of_find?_eq_some hf, by simpa using List.find?_some hf, hx⟩
+    · unfold toStep at hx
+      split at hx
+      · cases hx
+      · rename_i hany
+        right; right
+        refine ⟨b, hb, ?_, by simpa using hx.symm⟩
+        intro hm
+        exact hany ((any_key_mem key frm (key b)).mpr hm)
+  · rintro (⟨a, ha, hk, rfl⟩ | ⟨a, ha, b, hb, hk, hc⟩ | ⟨b, hb, hk, rfl⟩)
+    · left
+      refine ⟨a, ha, ?_⟩
+      unfold fromStep
+      rw [find_key_none key to (key a) hk]
+    · left
+      refine ⟨a, ha, ?_⟩
+      unfold fromStep
+      have := find_key_self key to hto b hb
+      rw [hk] at this
+      rw [this]; exact hc
+    · right
+      refine ⟨b, hb, ?_⟩
+      unfold toStep
+      have : frm.any (fun a => key a = key b) = false := by
+        rw [Bool.eq_false_iff]; intro h; exact hk ((any_key_mem key frm (key b)).mp h)
+      simp [this]
+
+/-- every element contributes at most one change: the number of changes is the number of elements
+that produce one. -/
+theorem keyedDiff_length (key : α → κ) (chg : α → α → Option χ) (drop add : α → χ) (frm to : List α) :
+    (keyedDiff key chg drop add frm to).length =
+      (frm.filter (fun a => (fromStep key chg drop to a).isSome)).length +
+      (to.filter (fun b => (toStep key add frm b).isSome)).length := by
+  unfold keyedDiff
+  rw [List.length_append]
+  have h : ∀ {β γ : Type} (f : β → Option γ) (l : List β), (l.filterMap f).length = (l.filter (fun a => (f a).isSome)).length := by
+    intro β γ f l
+    induction l with
+    | nil => rfl
+    | cons x xs ih =>
+      rw [List.filterMap_cons, List.filter_cons]
+      cases hfx : f x with
+      | none => simpa using ih
+      | some y => simp [ih]
+  rw [h, h]
+
+end Atlas.Diff
+
+namespace Atlas.Diff
+
+/-- **mem_schemaDiff**: for ANY two schemas (the edited one with distinct table names) the diff
+contains exactly: a DropTable per table whose name disappeared, an AddTable per new name, and for
+every table present in both exactly its non-empty table diff — nothing else. -/
+theorem mem_schemaDiff (s s' : List Table) (hs' : (s'.map Table.name).Nodup) (c : Change) :
+    c ∈ schemaDiff s s' ↔
+      (∃ t ∈ s, t.name ∉ s'.map Table.name ∧ c = .dropTable t.name) ∨
+      (∃ t ∈ s, ∃ t' ∈ s', t'.name = t.name ∧ tableDiff t t' ≠ [] ∧ c = .modifyTable t'.name (tableDiff t t')) ∨
+      (∃ t' ∈ s', t'.name ∉ s.map Table.name ∧ c = .addTable t'.name) := by
+  unfold schemaDiff
+  rw [mem_keyedDiff _ _ _ _ s s' hs']
+  constructor
+  · rintro (h | ⟨t, ht, t', ht', hn, hc⟩ | h)
+    · exact Or.inl h
+    · right; left
+      refine ⟨t, ht, t', ht', hn, ?_⟩
+      by_cases he : (tableDiff t t').isEmpty = true
+      · simp [he] at hc
+      · simp only [he] at hc
+        refine ⟨by intro h0; apply he; simp [h0], ?_⟩
+        simpa using hc.symm
+    · exact Or.inr (Or.inr h)
+  · rintro (h | ⟨t, ht, t', ht', hn, hne, rfl⟩ | h)
+    · exact Or.inl h
+    · right; left
+      refine ⟨t, ht, t', ht', hn, ?_⟩
+      have : (tableDiff t t').isEmpty = false := by
+        cases h0 : tableDiff t t' with
+        | nil => exact absurd h0 hne
+        | cons _ _ => rfl
+      simp [this]
+    · exact Or.inr (Or.inr h)
+
+/-- **mem_columnDiff**: likewise for the columns of a table. -/
+theorem mem_columnDiff (cols cols' : List Col) (hn : (cols'.map Col.name).Nodup) (c : TChange) :
+    c ∈ columnDiff cols cols' ↔
+      (∃ a ∈ cols, a.name ∉ cols'.map Col.name ∧ c = .dropColumn a.name) ∨
+      (∃ a ∈ cols, ∃ b ∈ cols', b.name = a.name ∧ kinds a.attrs b.attrs ≠ [] ∧ c = .modifyColumn a.name (kinds a.attrs b.attrs)) ∨
+      (∃ b ∈ cols', b.name ∉ cols.map Col.name ∧ c = .addColumn b.name) := by
+  unfold columnDiff
+  rw [mem_keyedDiff _ _ _ _ cols cols' hn]
+  constructor
+  · rintro (h | ⟨a, ha, b, hb, hk, hc⟩ | h)
+    · exact Or.inl h
+    · right; left
+      refine ⟨a, ha, b, hb, hk, ?_⟩
+      unfold colChange at hc
+      by_cases he : (kinds a.attrs b.attrs).isEmpty = true
+      · simp [he] at hc
+      · simp only [he] at hc
+        exact ⟨by intro h0; apply he; simp [h0], by simpa using hc.symm⟩
+    · exact Or.inr (Or.inr h)
+  · rintro (h | ⟨a, ha, b, hb, hk, hne, rfl⟩ | h)
+    · exact Or.inl h
+    · right; left
+      refine ⟨a, ha, b, hb, hk, ?_⟩
+      have : (kinds a.attrs b.attrs).isEmpty = false := by
+        cases h0 : kinds a.attrs b.attrs with
+        | nil => exact absurd h0 hne
+        | cons _ _ => rfl
+      simp [colChange, this]
+    · exact Or.inr (Or.inr h)
+
+end Atlas.Diff
